@@ -1,6 +1,12 @@
 HOOK_COMMITS = []
 NOT_APPLICABLE = {}
 CHECKS = {
+ "C14": {
+  "level": "exploration",
+  "technique": "runtime monitor: seeded ui.json dictionaries from all template forms; differential InputFile.data / enabled / isValue before write vs after read; strict JSON decoder on the text; promote/demote identity; second round after edits",
+  "text": "Hundreds to thousands of ui.json dictionaries of 3-12 forms drawn from every template function (bool, integer, float incl. +-inf, string, choice, multi-choice, file, object, multi-object, data, data-or-value, group, drillhole-group data, range) with seeded optional/enabled/group/groupOptional/dependency members, written self-consistently the way the application writes them, against a workspace (file names with several dots, spaces, non-ASCII) holding the referenced entities: data and enabled/isValue states before write_ui_json must equal those after read_ui_json, the text must parse with a decoder that rejects NaN/Infinity tokens, demoted identifiers must equal the entities' uids and promote(demote(x)) == x, no .geoh5 file may appear in the working directory, and after value edits through set_data_value (numbers, None for optional parameters, data<->value switches) a second write/read must agree again. Held on the counted files only.",
+  "note": "NaN excluded (documented). Dictionaries rejected at construction are counted, not judged (C15). Open known finding C14-empty-string. Edits inside switched-off groups / dependencies are not generated (meaning not defined by the format).",
+ },
  "C08": {
   "level": "exploration",
   "technique": "runtime monitor: exhaustive partition dtype x magnitude class x kind x entry point with a representability oracle; live / re-opened / raw-dataset comparison; caller-buffer aliasing probe; numpy cast warnings recorded",
